@@ -2,13 +2,17 @@
 
 package simrt
 
-import "runtime"
+import (
+	"runtime"
+	"unsafe"
+)
 
 // In the -race build the baton hand-offs are hidden from the race detector
 // (DESIGN.md §2.7): synchronisation events are not recorded while RaceDisable is
 // in force, so the detector sees no happens-before edge between tasks except
-// the ones the library itself creates.
+// the ones the library itself creates (through the pool model, below).
 
+//go:norace
 func handoff(to, me chan struct{}) {
 	runtime.RaceDisable()
 	to <- struct{}{}
@@ -16,16 +20,35 @@ func handoff(to, me chan struct{}) {
 	runtime.RaceEnable()
 }
 
+//go:norace
 func release(c chan struct{}) {
 	runtime.RaceDisable()
 	c <- struct{}{}
 	runtime.RaceEnable()
 }
 
+//go:norace
 func acquire(c chan struct{}) {
 	runtime.RaceDisable()
 	<-c
 	runtime.RaceEnable()
+}
+
+// publish / subscribe: a finished task's data becomes visible to the main
+// goroutine (and to nobody else: ReleaseMerge does not acquire).
+func publish(p *int)   { runtime.RaceReleaseMerge(unsafe.Pointer(p)) }
+func subscribe(p *int) { runtime.RaceAcquire(unsafe.Pointer(p)) }
+
+// sync.Pool's own edge: Put(x) happens before the Get that returns x.
+func poolAcquire(p unsafe.Pointer) {
+	if p != nil {
+		runtime.RaceAcquire(p)
+	}
+}
+func poolRelease(p unsafe.Pointer) {
+	if p != nil {
+		runtime.RaceReleaseMerge(p)
+	}
 }
 
 const RaceEnabled = true
